@@ -7,7 +7,7 @@ pub struct HashSet<T> { _p: std::marker::PhantomData<T> }
 impl<T> HashSet<T> {
     pub uninterp spec fn view(&self) -> SSet<T>;
     #[verifier::external_body] pub fn new() -> (r: Self) ensures r.view() == SSet::<T>::empty() { unimplemented!() }
-    #[verifier::external_body] pub fn insert(&mut self, t: T) -> (b: bool) ensures final(self).view() == old(self).view().insert(t), b == !old(self).view().contains(t) { unimplemented!() }
+    #[verifier::external_body] pub fn insert(&mut self, t: T) -> (b: bool) ensures final(self).view() == old(self).view().insert(t), b == !old(self).view().contains(t), final(self).view().contains(t) { unimplemented!() }
     #[verifier::external_body] pub fn contains(&self, t: &T) -> (b: bool) ensures b == self.view().contains(*t) { unimplemented!() }
     #[verifier::external_body] pub fn is_empty(&self) -> (b: bool) ensures b == (self.view() =~= SSet::<T>::empty()) { unimplemented!() }
     /// some duplicate-free enumeration of the elements (uninterpreted: proofs do not depend on the order)
